@@ -24,6 +24,8 @@ EXPLANATION = (
     "schedule-dependent counting and are not decided.")
 
 CAM_REC = "SimulatedCamera"
+EXPLANATION += (' R-FRESH: copy-out only of a strictly newer frame, never once the camera was seen stopped; id recorded and reported; the streamer advances its counter per publish, consumes the trigger (store 0 under the lock) and wakes the waiter. R-RESTART also requires start to clear a left-over trigger.')
+
 
 
 def run(ctx, res):
